@@ -51,9 +51,12 @@ def child_env(idx=0, seed=0):
     env["PYTHONWARNINGS"] = "ignore"
     env["MPLBACKEND"] = "agg"
     # half of the workers run with process-wide state a caller may legitimately have changed (numpy print options): results must not
-    # depend on it.  VERIF_PROCESS_STATE=default|hostile overrides (replays use the state the violation was seen in)
+    # depend on it.  (replays use the state the violation was seen in)
+    # and every fourth worker runs under `python -O` (assert statements of the package stripped, as in a production run with
+    # PYTHONOPTIMIZE): for the inputs the properties quantify over nothing may depend on an assert being executed.
+    # VERIF_PROCESS_STATE=default|hostile|optimized overrides
     if "VERIF_PROCESS_STATE" not in os.environ:
-        env["VERIF_PROCESS_STATE"] = "hostile" if (idx + seed) % 2 == 1 else "default"
+        env["VERIF_PROCESS_STATE"] = ("default", "hostile", "default", "optimized")[(idx + seed) % 4]
     return env
 
 
@@ -64,7 +67,12 @@ def run_worker(prop, spec, scratch, idx, timeout):
         json.dump(spec, f)
     t0 = time.time()
     try:
-        p = subprocess.run([PYTHON, "-m", "vlib.worker", prop, spec_path, out_path], cwd=VERIF, env=child_env(idx, int(spec.get("seed", 0) or 0)),
+        env = child_env(idx, int(spec.get("seed", 0) or 0))
+        if spec.get("process_state"):
+            env["VERIF_PROCESS_STATE"] = spec["process_state"]
+        # optimised mode (python -O): assert statements of the package are stripped; for valid inputs the results must not change
+        flags = ["-O"] if env.get("VERIF_PROCESS_STATE") == "optimized" else []
+        p = subprocess.run([PYTHON, *flags, "-m", "vlib.worker", prop, spec_path, out_path], cwd=VERIF, env=env,
                            timeout=timeout, stdout=subprocess.DEVNULL, stderr=subprocess.DEVNULL,
                            start_new_session=True)
         rc = p.returncode
